@@ -534,3 +534,28 @@ Definition lk_spec_ok (x : lookup_case) : bool :=
   && (if lk_has_target x && negb (guarded (lk_name x))
       then lookup_eqb (lk_obs x) (if lk_target_has x then Found else AttrErr)
       else true).
+
+(* --- compact case literals (the harness prints numbers only) --- *)
+Definition cell_of_code (c : N) : cloc :=
+  match c mod 4 with
+  | 0 => LFactory (c / 4)
+  | 1 => LResolved (c / 4) false
+  | _ => LResolved (c / 4) true
+  end.
+
+Definition child_of_code (l : list N) : child :=
+  match l with
+  | n :: r :: k :: hs => mkchild n (negb (r =? 0)) k hs
+  | _ => mkchild 0 false 0 []
+  end.
+
+(* CL [client; multiref object; args] cells-in cells-out children *)
+Definition CL (h ins outs : list N) (cs : list (list N)) : call :=
+  mkcall (nth 0 h 0) (nth 1 h 0) (nth 2 h 0) (map cell_of_code ins) (map cell_of_code outs)
+         (map child_of_code cs).
+
+(* SC calls [[thread; pc; sub] ...] [[request own; result class] ...] *)
+Definition SC (calls : list call) (plan obs : list (list N)) : sched_case :=
+  mksc calls
+       (map (fun s => (N.to_nat (nth 0 s 0), (N.to_nat (nth 1 s 0), N.to_nat (nth 2 s 0)))) plan)
+       (map (fun o => mkout (negb (nth 0 o 0 =? 0)) (nth 1 o 0)) obs).
